@@ -104,7 +104,7 @@ func (m *machine) replay(t *rapid.T) {
 	variant := rapid.SampledFrom([]string{"identical", "reencoded", "fresh-height", "other-relayer", "stale-height", "unknown-height", "same-tx-twice"}).Draw(t, "variant")
 	hs := w.ProofHeightsFor(p.DstIdx, p.SrcIdx, p.SentAt)
 	if len(hs) == 0 {
-		kit.Failf("received packet without proof heights")
+		t.Skip("no usable proof height (the client was re-anchored by governance and has not caught up)")
 	}
 	h := hs[0]
 	rel := p.AckRelayer
@@ -300,6 +300,7 @@ func run(t *rapid.T, r *rec.Recorder) {
 		"limit":           wrap(bm.ActLimit),
 		"tssInject":       wrap(m.tssInject),
 		"toggleRoundTrip": wrap(bm.ActToggleRoundTrip),
+		"upgradeLower":    wrap(bm.ActUpgradeLower),
 		"":                wrap(m.check),
 	}
 	t.Repeat(acts)
